@@ -157,7 +157,7 @@ class Collection(object):
             if not page:
                 return
             # a page is a snapshot: summaries carry the metadata seen at listing time
-            summaries = [ObjectSummary(self.bucket, k, objs[k][1]) for k in page]
+            summaries = [ObjectSummary(self.bucket, k, objs[k][1], objs[k][2].get('StorageClass', 'STANDARD')) for k in page]
             for s in summaries:
                 yield s
             last = page[-1]
@@ -171,11 +171,13 @@ class Collection(object):
 
 
 class ObjectSummary(object):
-    def __init__(self, bucket, key, last_modified):
+    def __init__(self, bucket, key, last_modified, storage_class='STANDARD'):
         self.bucket = bucket
         self.bucket_name = bucket.name
         self.key = key
         self.last_modified = last_modified
+        self.storage_class = storage_class
+        self.size = len(bucket.world.bucket(bucket.name).get(key, (b'',))[0])
 
     def get(self, **kw):
         w = self.bucket.world
